@@ -13,6 +13,7 @@ import (
 	"crypto/ed25519"
 	"fmt"
 	"path/filepath"
+	"strings"
 	"time"
 
 	"go.dedis.ch/kyber/v4"
@@ -68,6 +69,59 @@ func c18Transcripts(c *kc.Ctx) []kc.Case {
 					line = "grp " + g.Grp + " " + p.String()
 				}
 				cases = append(cases, kc.Case{Impl: g.Name + "/" + groups.BuildConfig, Kind: "program:" + m, Line: line, Got: got, Key: p.String()})
+			}
+		}
+	}
+	// decoding: implementations of one group accept and refuse the same strings, and re-encode what they accept to
+	// the same bytes - special values, both settings of a sign/flag bit, neighbours of valid encodings
+	for _, m := range order {
+		insts := byMath[m]
+		if len(insts) < 2 || strings.HasPrefix(m, "bls12381") {
+			// The three BLS12-381 back-ends are required to PRODUCE identical encodings (checked by the programs above);
+			// they are known to differ in which non-canonical strings they tolerate (uncompressed forms, flag bits:
+			// C04 decides acceptance per back-end against the model), so acceptance is not compared here.
+			continue
+		}
+		ref := insts[0]
+		pl := ref.Group.PointLen()
+		rng := c.Rng.Fork("c18decode/" + m)
+		var encs [][]byte
+		for k := 0; k < 12; k++ {
+			e := c18SpecialEncoding(m, k, pl)
+			encs = append(encs, e)
+			for _, bit := range []int{8*pl - 1, 8*pl - 2, 7, 0} {
+				f := append([]byte{}, e...)
+				f[bit/8] ^= 1 << uint(bit%8)
+				encs = append(encs, f)
+			}
+		}
+		cpr := groupCaps(ref)
+		for k := 0; k < c.N(6, 40); k++ {
+			v, _ := ref.Group.Point().Mul(ref.Group.Scalar().Pick(rng), cpr.gen()).MarshalBinary()
+			encs = append(encs, v)
+			for _, bit := range []int{8*len(v) - 1, 8*len(v) - 2, 8 * (len(v) / 2), 1, 0} {
+				f := append([]byte{}, v...)
+				f[bit/8] ^= 1 << uint(bit%8)
+				encs = append(encs, f)
+			}
+			encs = append(encs, v[:len(v)-1], append(append([]byte{}, v...), 0))
+		}
+		encs = append(encs, bytes.Repeat([]byte{0xff}, pl), make([]byte, pl), []byte{})
+		for _, e := range encs {
+			key := "decode|" + kc.HexB(e)
+			for _, g := range insts {
+				got := kc.Recover(func() string {
+					P := g.Group.Point()
+					if err := P.UnmarshalBinary(e); err != nil {
+						return "err"
+					}
+					b, err := P.MarshalBinary()
+					if err != nil {
+						return "ok:marshal-err"
+					}
+					return "ok:" + kc.HexB(b)
+				})
+				cases = append(cases, kc.Case{Impl: g.Name + "/" + groups.BuildConfig, Kind: "decode:" + m, Line: "nomodel " + m + " " + key, Got: got, Key: key})
 			}
 		}
 	}
